@@ -17,7 +17,7 @@ import (
 //	loggerNextTopLevel   that call is a plain statement of the body (not in a branch, loop, defer or goroutine)
 //	loggerLogCalls       number of log.LogAttrs calls in the body
 //	loggerLogAfterNext   every LogAttrs call is textually after next(c), in a later top-level statement
-//	loggerLogExclusive   the LogAttrs calls sit in the two arms of one if/else (exactly one executes)
+//	loggerLogExclusive   on every control-flow path through the statements after next(c) exactly one LogAttrs call executes
 //	loggerNoDeferRecover no defer, go or recover() in the body (a panic of next(c) unwinds through it untouched)
 //	loggerWriterReadOnly c.Writer() is only used as c.Writer().Status() and c.Writer().Header().Get(...)
 //	loggerMsgIsIPStr     the message argument of every LogAttrs call is the variable ipStr, the level argument is lvl
@@ -307,16 +307,19 @@ func genLoggerFacts(r *Repo) (string, error) {
 			logAfter = false
 		}
 	}
-	// the two LogAttrs calls are the two arms of one if/else among the top-level statements after next(c)
+	// exactly one LogAttrs call executes on every control-flow path through the statements after next(c) (whatever the
+	// shape: two arms of an if/else, an early return after the first, a switch)
 	exclusive := false
-	for i, st := range inner.Body.List {
-		ifs, ok := st.(*ast.IfStmt)
-		if !ok || i <= nextIdx || ifs.Else == nil {
-			continue
-		}
-		cnt := func(n ast.Node) int {
+	if nextIdx >= 0 {
+		cntLog := func(n ast.Node) int {
 			k := 0
+			if n == nil {
+				return 0
+			}
 			ast.Inspect(n, func(m ast.Node) bool {
+				if _, ok := m.(*ast.FuncLit); ok {
+					return false
+				}
 				if m != nil && isLog(m) != nil {
 					k++
 				}
@@ -324,8 +327,12 @@ func genLoggerFacts(r *Repo) (string, error) {
 			})
 			return k
 		}
-		if _, isBlock := ifs.Else.(*ast.BlockStmt); isBlock && cnt(ifs.Body) == 1 && cnt(ifs.Else) == 1 && logCalls == 2 {
-			exclusive = true
+		fall, done, ok := lgPaths(inner.Body.List[nextIdx+1:], cntLog)
+		exclusive = ok && logCalls >= 1
+		for _, c := range append(fall, done...) {
+			if c != 1 {
+				exclusive = false
+			}
 		}
 	}
 	// location is assigned once, under `if lvl.Level() == slog.LevelDebug`
@@ -368,4 +375,121 @@ func genLoggerFacts(r *Repo) (string, error) {
 	fmt.Fprintf(&sb, "def loggerLocationOnlyAtDebug : Bool := %v\n", locAssign == 1 && locGuarded)
 	sb.WriteString("\nend Fox.Generated\n")
 	return sb.String(), nil
+}
+
+// lgPaths enumerates the control-flow paths through a statement list and counts the log calls on each: `fall` are the
+// counts of the paths that reach the end of the list, `done` of those that return before. ok = false when the shape is
+// outside what is understood (a log call or a return inside a loop, goto, fallthrough, select, defer, go).
+func lgPaths(stmts []ast.Stmt, cnt func(ast.Node) int) (fall, done []int, ok bool) {
+	fall = []int{0}
+	ok = true
+	add := func(xs []int, d int) []int {
+		ys := make([]int, 0, len(xs))
+		for _, x := range xs {
+			ys = append(ys, x+d)
+		}
+		return ys
+	}
+	uniq := func(xs []int) []int {
+		seen := map[int]bool{}
+		var ys []int
+		for _, x := range xs {
+			if !seen[x] {
+				seen[x] = true
+				ys = append(ys, x)
+			}
+		}
+		return ys
+	}
+	hasReturn := func(n ast.Node) bool {
+		r := false
+		ast.Inspect(n, func(m ast.Node) bool {
+			if _, ok := m.(*ast.FuncLit); ok {
+				return false
+			}
+			if _, ok := m.(*ast.ReturnStmt); ok {
+				r = true
+			}
+			return true
+		})
+		return r
+	}
+	for _, st := range stmts {
+		if len(fall) == 0 {
+			break // unreachable
+		}
+		var sFall, sDone []int
+		switch x := st.(type) {
+		case *ast.ReturnStmt:
+			sDone = []int{cnt(x)}
+		case *ast.BlockStmt:
+			f, d, k := lgPaths(x.List, cnt)
+			sFall, sDone, ok = f, d, ok && k
+		case *ast.IfStmt:
+			pre := cnt(x.Init) + cnt(x.Cond)
+			f, d, k := lgPaths(x.Body.List, cnt)
+			ok = ok && k
+			var ef, ed []int
+			switch e := x.Else.(type) {
+			case nil:
+				ef = []int{0}
+			case *ast.BlockStmt:
+				var k2 bool
+				ef, ed, k2 = lgPaths(e.List, cnt)
+				ok = ok && k2
+			default:
+				var k2 bool
+				ef, ed, k2 = lgPaths([]ast.Stmt{e}, cnt)
+				ok = ok && k2
+			}
+			sFall = add(append(f, ef...), pre)
+			sDone = add(append(d, ed...), pre)
+		case *ast.SwitchStmt, *ast.TypeSwitchStmt:
+			var body *ast.BlockStmt
+			pre := 0
+			if sw, isSw := x.(*ast.SwitchStmt); isSw {
+				body, pre = sw.Body, cnt(sw.Init)+cnt(sw.Tag)
+			} else {
+				ts := x.(*ast.TypeSwitchStmt)
+				body, pre = ts.Body, cnt(ts.Init)+cnt(ts.Assign)
+			}
+			hasDefault := false
+			for _, cl := range body.List {
+				cc := cl.(*ast.CaseClause)
+				if cc.List == nil {
+					hasDefault = true
+				}
+				for _, b := range cc.Body {
+					if br, isBr := b.(*ast.BranchStmt); isBr && br.Tok == token.FALLTHROUGH {
+						ok = false
+					}
+				}
+				f, d, k := lgPaths(cc.Body, cnt)
+				ok = ok && k
+				sFall = append(sFall, f...)
+				sDone = append(sDone, d...)
+			}
+			if !hasDefault {
+				sFall = append(sFall, 0)
+			}
+			sFall, sDone = add(sFall, pre), add(sDone, pre)
+		case *ast.ForStmt, *ast.RangeStmt, *ast.SelectStmt, *ast.LabeledStmt, *ast.GoStmt, *ast.DeferStmt:
+			if cnt(x) > 0 || hasReturn(x) {
+				ok = false
+			}
+			sFall = []int{0}
+		case *ast.BranchStmt:
+			ok = false
+			sFall = []int{0}
+		default:
+			sFall = []int{cnt(x)}
+		}
+		var nf []int
+		for _, c := range fall {
+			nf = append(nf, add(sFall, c)...)
+			done = append(done, add(sDone, c)...)
+		}
+		fall, done = uniq(nf), uniq(done)
+	}
+	return fall, done, ok
 }
